@@ -414,7 +414,8 @@ func (f *formatter) FormatFieldList(fieldList ast.FieldList, endOfDefComment *as
 }
 
 func (f *formatter) FormatFieldDefinition(field *ast.FieldDefinition) {
-	if !f.emitBuiltin && strings.HasPrefix(field.Name, "__") {
+	// the introspection fields that the loader adds to the query type (they have no source position)
+	if !f.emitBuiltin && field.Position == nil && strings.HasPrefix(field.Name, "__") {
 		return
 	}
 
